@@ -26,7 +26,7 @@ import (
 // (seeded random choice, recorded for replay). Wall clock only steers the schedule; the verdict is logical:
 // every operation on a held session works and, after everything is closed, every secret has been released.
 func sessionCacheSchedules(r *ev.Run) {
-	n := ev.Pick(120, 4000)
+	n := ev.Pick(120, 2500)
 	rng := rand.New(rand.NewSource(ev.Seed()*31337 + 5))
 	for i := 0; i < n; i++ {
 		journal(fmt.Sprintf("C16 session-cache schedule #%d", i))
